@@ -28,17 +28,14 @@ def counterTotals (p : Program) (env : List Shards) (resultCounters : List (List
   let base := (List.range 3).map fun c => (resultCounters.map fun rc => rc.getD c 0).foldl (· + ·) 0
   (base.zip (counters p env)).map fun (a, b) => a + b
 
-/-- which results does a program mention -/
+/-- which results does the output of a program depend on -/
 def usedResults (p : Program) : List Nat :=
-  let refs := p.nodes.flatMap fun op => match op with
-    | .map s _ _ | .count s _ | .filter s _ | .flatmap s _ | .fold s | .head s _ | .reduce s _ | .reshuffle s
-    | .reshuffle2 s | .repartition s _ | .reshard s _ | .scan s | .writer s | .cache s _ _ => [s]
-    | .cogroup a b => [a, b]
-    | _ => []
+  let reach := reachable p
+  let refs := p.nodes.zipIdx.flatMap fun (op, i) => if reach.getD i false then refsOf op else []
   ((p.out :: refs).filterMap fun r => match r with | .result i => some i | _ => none).eraseDups
 
-def checkProgram (prog : String) (results : List Shards) (resultCounters : List (List Nat)) (obs : String) :
-    Except String (Shards × List Nat × String) := do
+def checkProgram (prog : String) (results : List Shards) (resultCounters : List (List Nat)) (obs : String)
+    (lenient : Bool := false) : Except String (Shards × List Nat × String) := do
   let (p, names) := ProgParse.parseProgram prog
   let (env, out) := eval p results
   if !wfNodes results p.nodes [] then throw "the program applies Head to rows whose order it does not fix (outside the specified fragment)"
@@ -58,12 +55,15 @@ def checkProgram (prog : String) (results : List Shards) (resultCounters : List 
       let mut allRows : List String := []
       for (log, (w, i)) in shardLogs.zip want.zipIdx do
         let (rows, eofs, lastEof, anyErr) := parseWriterLog log
-        if anyErr then throw s!"shard {i}: the writer observed an error in a failure-free run"
-        if !sameRows out.ordered rows w then
+        if anyErr && !lenient then throw s!"shard {i}: the writer observed an error in a failure-free run"
+        if !lenient && !sameRows out.ordered rows w then
           throw s!"shard {i} holds [{joinWith ";" rows}], the operators prescribe [{joinWith ";" w}]{if out.ordered then "" else " (as a multiset)"}"
-        if eofs != 1 || !lastEof then throw s!"shard {i}: end-of-stream observed {eofs} times (expected once, at the end)"
+        if !lenient && (eofs != 1 || !lastEof) then throw s!"shard {i}: end-of-stream observed {eofs} times (expected once, at the end)"
         allRows := allRows ++ rows
-      if scanRows != allRows then throw "scanning the result does not yield the shards' rows in shard order"
+      if !lenient && scanRows != allRows then throw "scanning the result does not yield the shards' rows in shard order"
+      -- (with retried tasks the writer log holds the rows of every attempt: then only the scanned rows are judged)
+      if lenient && !sameRows out.ordered scanRows want.flatten then
+        throw s!"the result holds [{joinWith ";" scanRows}], the operators prescribe [{joinWith ";" want.flatten}]"
     else
       if !scanRows.isEmpty then throw "scanning a unit slice yielded rows"
     -- WriterFunc nodes of the program
